@@ -602,3 +602,60 @@ Proof.
   apply (lc_snake_aux r true false false); [assumption| |discriminate].
   symmetry. now apply camel_tail_true_head.
 Qed.
+
+(* ---- ToSnake is injective on lowerCamel names and on UpperCamel words ---------------
+   (the classes on which it has a left inverse); across classes it is not:
+   "fooBar", "foo_bar" and "FooBar" share one snake form *)
+Theorem to_snake_injective_lower_camel : forall a b,
+  lower_camel a = true -> lower_camel b = true -> to_snake a = to_snake b -> a = b.
+Proof.
+  intros a b Ha Hb H. rewrite <- (to_lower_camel_to_snake a Ha), <- (to_lower_camel_to_snake b Hb).
+  now rewrite H.
+Qed.
+
+Theorem to_snake_injective_upper_word : forall a b,
+  upper_word a = true -> upper_word b = true -> to_snake a = to_snake b -> a = b.
+Proof.
+  intros a b Ha Hb H.
+  rewrite <- (to_camel_to_snake_upper_word a Ha), <- (to_camel_to_snake_upper_word b Hb).
+  now rewrite H.
+Qed.
+
+Theorem to_snake_collision_witness :
+  let a := [102;111;111;66;97;114] in       (* "fooBar" *)
+  let b := [102;111;111;95;98;97;114] in    (* "foo_bar" *)
+  let c := [70;111;111;66;97;114] in        (* "FooBar" *)
+  a <> b /\ a <> c /\ to_snake a = to_snake b /\ to_snake a = to_snake c
+  /\ lower_camel a = true /\ ident b = true /\ upper_word c = true.
+Proof. cbv zeta. repeat split; try discriminate; vm_compute; reflexivity. Qed.
+
+(* ---- ToScreamingSnake is ToSnake in upper case ------------------------------------------ *)
+Lemma conv_true_upper : forall c, conv true c = to_upper (conv false c).
+Proof.
+  intros c. unfold conv, to_upper.
+  destruct (is_low c) eqn:El.
+  - rewrite (low_not_cap c El). cbn [andb negb]. rewrite El. reflexivity.
+  - destruct (is_cap c) eqn:Ec; cbn [andb negb].
+    + rewrite (cap_lower_is_low c Ec). lia.
+    + now rewrite El.
+Qed.
+
+Lemma to_upper_other : forall c, is_low c = false -> to_upper c = c.
+Proof. intros c H. unfold to_upper. now rewrite H. Qed.
+
+Theorem screaming_loop_is_upper_snake : forall s pc,
+  delimited_go 95 true pc s = map to_upper (delimited_go 95 false pc s).
+Proof.
+  induction s as [|c r IH]; intros pc; [reflexivity|].
+  rewrite !delimited_go_cons.
+  assert (Hif : forall b : bool, map to_upper (if b then [95] else []) = if b then [95] else []).
+  { intros []; reflexivity. }
+  destruct (is_cap c) eqn:Ec; [|destruct (is_low c) eqn:El; [|destruct (is_num c) eqn:En]].
+  - rewrite map_app, Hif. cbn [map]. rewrite map_app, Hif, <- IH, conv_true_upper. reflexivity.
+  - cbn [map]. rewrite map_app, Hif, <- IH, conv_true_upper. reflexivity.
+  - cbn [map]. rewrite map_app, Hif, <- IH, (to_upper_other c El). reflexivity.
+  - cbn [map]. rewrite <- IH. f_equal. destruct (is_sep c); [reflexivity|]. now rewrite (to_upper_other c El).
+Qed.
+
+Theorem to_screaming_snake_upper : forall s, to_screaming_snake s = map to_upper (to_snake s).
+Proof. intros s. apply screaming_loop_is_upper_snake. Qed.
